@@ -21,7 +21,7 @@ func init() {
 			"C01.5 the packet-reader path (serve → processPacket → handlers, synchronous edges) performs no blocking operation besides the socket read and mutex acquisition; " +
 			"C01.6 census of explicit panic sites reachable from the packet path: each is discharged by a visible guard or listed as an assumed invariant (inherited by helpers extracted from the listed functions); integer divisions on that path have a divisor that is a non-zero constant, a field that only ever receives non-zero constants, or non-zero by a path fact; C01.9 nothing under the krpc Marshal* methods constructs an error, so MustMarshal in the unrecovered reply goroutine cannot be tripped by a field value taken from the wire; " +
 			"C01.8 bucketIndex (which panics on the root ID) is called only under id ≠ rootID / id ≠ own ID established in the caller or its callers; Server.addNode reaches table.addNode (whose refusal it turns into a panic under Server.mu) only with room in the bucket: Len < k, or the eviction loop stopped because its callback saw Len < k; " +
-			"C01.7 no library code performs a blocking operation (channel send/receive, blocking select, WaitGroup/limiter wait, sleep, socket I/O) while Server.mu is held in any mode, on any call path - the reader needs that lock for every datagram.",
+			"C01.7 no library code performs a blocking operation (channel send/receive, blocking select, WaitGroup/limiter wait, sleep, socket I/O) while Server.mu is held in any mode, on any call path - the reader needs that lock for every datagram. C01.2 also covers the query handler and its closures (the statistics goroutine included) and every encoding/binary fixed-width accessor; C01.13 a candidate popped for a query leaves the frontier on every path, so the fan-out loop cannot spin under the lookup lock (shared with C03.10).",
 		NotDecided: "absence of all panics (integer arithmetic, allocation, third-party code such as bencode/immutable/log), liveness under load, scheduler fairness, behaviour of user hooks.",
 		Assume: []string{
 			"user hooks (OnQuery, OnAnnouncePeer, PeerStore, Store, Conn) do not call back into the Server while it holds Server.mu and do not mutate the *krpc.Msg they are shown",
@@ -39,6 +39,7 @@ func init() {
 			{ID: "C01.10", Doc: "a fresh address gets its answer: the received source address is never rewritten in place (shared with C08.8)", Floor: 1, Run: c08r8},
 			{ID: "C01.11", Doc: "no send on a closed channel: the announce's peers channel is closed only after the traversal reported Stopped, i.e. after every delivering query has returned (shared with C16.3)", Floor: 8, Run: c16r3},
 			{ID: "C01.12", Doc: "the node cannot be silenced through the handler: every path of a query ends in exactly one datagram unless passive, vetoed or badly tokened (shared with C08.3)", Floor: 8, Run: c08r3},
+			{ID: "C01.13", Doc: "a lookup cannot be made to spin under its lock: a candidate popped for a query leaves the frontier on every path, so each turn of the fan-out loop makes progress (shared with C03.10; a spinning lookup wedges Bootstrap, Announce and every API call that joins it)", Floor: 3, Run: c03r10},
 			{ID: "C01.8", Doc: "the table's self-check panics are unreachable from wire data: room in the bucket before table.addNode; id ≠ rootID before bucketIndex", Floor: 5, Run: func(w *World, rr *RuleRun) { w.checkAddNodeRoom(rr); w.checkRootGuards(rr) }},
 		},
 	})
